@@ -251,7 +251,16 @@ func c20Dispatch(p *Prog, r *Report) {
 	loops := []string{"recvLoop", "sendLoop", "sendRecvLoop", "replyLoop"}
 	reached := map[int64][]string{}
 	for _, lp := range loops {
-		for _, e := range run.EvOwn("call", "macat.(*App)."+lp) {
+		sites := run.EvOwn("call", "macat.(*App)."+lp)
+		// `loop = a.recvLoop … return loop()`: choosing the method value is the dispatch
+		EachInstr(run.fn, func(in ssa.Instruction) {
+			if mc, ok := in.(*ssa.MakeClosure); ok {
+				if f, ok := mc.Fn.(*ssa.Function); ok && f.Name() == lp+"$bound" && len(mc.Bindings) == 1 && Desc(mc.Bindings[0]) == "recv" {
+					sites = append(sites, &Ev{Kind: "call", In: in, Fn: run.fn, Guard: p.GuardStrings(in)})
+				}
+			}
+		})
+		for _, e := range sites {
 			dnf, _ := PathConds(e.In.Block())
 			for _, v := range vals {
 				env := map[string]int64{self: v}
